@@ -131,10 +131,17 @@ def set_sites(mods):
     return sorted(set(sites))
 
 
+SET_METHODS = {"union", "intersection", "difference", "symmetric_difference"}
+
+
 def is_setexpr(node, setnames):
     if isinstance(node, ast.Attribute) and node.attr in SET_ATTRS:
         return True
-    if isinstance(node, ast.Call) and isinstance(node.func, ast.Name) and node.func.id == "set":
+    if isinstance(node, (ast.Set, ast.SetComp)):
+        return True                                   # {a, b} and {f(x) for x in ...}
+    if isinstance(node, ast.Call) and isinstance(node.func, ast.Name) and node.func.id in ("set", "frozenset"):
+        return True
+    if isinstance(node, ast.Call) and isinstance(node.func, ast.Attribute) and node.func.attr in SET_METHODS:
         return True
     if isinstance(node, ast.Name) and node.id in setnames:
         return True
